@@ -193,7 +193,11 @@ class World(object):
                                         replace=False))
                      for _ in range(n_out)]
             obs = [rng.uniform(0.5, 3, size=len(t)) for t in times]
-            ll = chi.LogLikelihood(um, self.user_ems, obs, times)
+            # (the outputs of a dosed model may be named again when the
+            # likelihood is created: the optional outputs argument)
+            okw = {'outputs': list(um.outputs())} if (
+                sbml and i % 2 == 1) else {}
+            ll = chi.LogLikelihood(um, self.user_ems, obs, times, **okw)
             self.lls.append(ll)
         pts = [_ro(self.x_ind * np.exp(0.05 * rng.normal(size=n_ind)))
                for _ in range(3)]
@@ -202,7 +206,9 @@ class World(object):
         # one sibling with fixed parameters (separate object)
         llf = chi.LogLikelihood(um, self.user_ems,
                                 [rng.uniform(0.5, 3, size=2)] * n_out,
-                                [TIMES[:2]] * n_out)
+                                [TIMES[:2]] * n_out,
+                                **({'outputs': list(um.outputs())}
+                                   if sbml else {}))
         names = llf.get_parameter_names()
         fix_i = int(rng.integers(len(names)))
         llf.fix_parameters({names[fix_i]: float(self.x_ind[fix_i])})
